@@ -72,8 +72,23 @@ impl<T: FileReader> RVParser<T> {
             }
             Err(err) => diags.push(DiagnosticItem::from(*err)),
         }
-        diags.sort();
+        self.sort_diagnostics(&mut diags);
         diags
+    }
+
+    /// Sort diagnostics by file and position.
+    ///
+    /// The base file comes first, the other files follow by name (file ids are
+    /// random, so they cannot be used to order the output).
+    pub fn sort_diagnostics(&self, diags: &mut [DiagnosticItem]) {
+        let base = self.reader.get_base_file();
+        diags.sort_by_cached_key(|d| {
+            (
+                Some(d.file) != base,
+                self.reader.get_filename(d.file).unwrap_or_default(),
+                d.range.clone(),
+            )
+        });
     }
 
     pub fn new(reader: T) -> RVParser<T> {
